@@ -40,6 +40,16 @@ type Rec struct {
 	known      map[string]int
 	extra      map[string]any
 	exhaustive *bool
+	scope      string
+}
+
+// SetScope names the part of the check that runs now; it becomes part of
+// the replay file name, so that the parts of one check (several test
+// functions of one property) do not overwrite each other's replay files.
+func (r *Rec) SetScope(s string) {
+	r.mu.Lock()
+	r.scope = s
+	r.mu.Unlock()
 }
 
 var (
@@ -188,6 +198,11 @@ func (r *Rec) writeReplay(caseObj any, msg string) string {
 		tag = "x"
 	}
 	sub := os.Getenv("VERIF_REPLAY_TAG")
+	r.mu.Lock()
+	if r.scope != "" {
+		sub = "-" + r.scope + sub
+	}
+	r.mu.Unlock()
 	path := filepath.Join(dir, fmt.Sprintf("%s-%s%s.json", r.Property, tag, sub))
 	obj := map[string]any{"property": r.Property, "case": caseObj, "violation": msg}
 	b, err := json.MarshalIndent(obj, "", " ")
